@@ -904,6 +904,21 @@ func (r *aeRun) exec(fr *frame, b *ssa.BasicBlock, pred *ssa.BasicBlock) any {
 					fr.vals[ph] = ev
 				}
 				skipPhis = true
+				if r.freePhis {
+					// state-machine mode: a local struct variable that lives across iterations (declared in
+					// front of the loop, assigned inside it) holds an arbitrary state as well
+					for _, al := range loopCarriedAllocs(fr.fn, l) {
+						if r.stateInit == nil {
+							r.stateInit = map[string]any{}
+						}
+						if cur, ok := fr.mem[al]; ok {
+							r.stateInit[al.Comment] = cur
+						} else {
+							r.stateInit[al.Comment] = zeroValue(al.Type().Underlying().(*types.Pointer).Elem())
+						}
+						fr.mem[al] = avRef{key: "state:" + al.Comment, side: 0, t: al.Type().Underlying().(*types.Pointer).Elem()}
+					}
+				}
 				// a rotated counting loop (for i := range n): the test i < n is made in front of the loop and
 				// at the latch, not at the header. The generic position satisfies it; where it does not,
 				// control is at the loop's exit.
@@ -932,6 +947,9 @@ func (r *aeRun) exec(fr *frame, b *ssa.BasicBlock, pred *ssa.BasicBlock) any {
 								next[ph.Comment] = r.eval(fr, ph.Edges[i])
 							}
 						}
+					}
+					for _, al := range loopCarriedAllocs(fr.fn, l) {
+						next[al.Comment] = fr.mem[al]
 					}
 					r.outcome = &iterOutcome{kind: "continue", val: next}
 					panic(returned{nil})
@@ -1057,6 +1075,44 @@ func sameAV(a, b any) bool {
 		return ok
 	}
 	return false
+}
+
+// loopCarriedAllocs: named struct locals declared in front of the loop l and stored to inside it
+func loopCarriedAllocs(fn *ssa.Function, l *loop) []*ssa.Alloc {
+	var out []*ssa.Alloc
+	for _, b := range fn.Blocks {
+		if l.body[b] {
+			continue
+		}
+		for _, ins := range b.Instrs {
+			al, ok := ins.(*ssa.Alloc)
+			if !ok || al.Heap || al.Comment == "" || al.Comment == "complit" || al.Comment == "varargs" {
+				continue
+			}
+			if _, isStruct := al.Type().Underlying().(*types.Pointer).Elem().Underlying().(*types.Struct); !isStruct {
+				continue
+			}
+			stored := false
+			for _, ref := range *al.Referrers() {
+				switch x := ref.(type) {
+				case *ssa.Store:
+					if x.Addr == ssa.Value(al) && l.body[x.Block()] {
+						stored = true
+					}
+				case *ssa.FieldAddr:
+					for _, r2 := range *x.Referrers() {
+						if st, ok := r2.(*ssa.Store); ok && st.Addr == ssa.Value(x) && l.body[st.Block()] {
+							stored = true
+						}
+					}
+				}
+			}
+			if stored {
+				out = append(out, al)
+			}
+		}
+	}
+	return out
 }
 
 // rotatedGuard: l is a bottom-tested counting loop  if 0 < n { do { ... } while (i+1 < n) }: the header has
